@@ -244,4 +244,15 @@ PROPS = {
                             'shared BSplines objects leave the stored integrals bit-identical')],
         assumptions=['scipy exact spline antiderivative as independent oracle'],
     ),
+    'C13': dict(
+        level='proof',
+        contracts=['vf.contracts.pargrad'],
+        functions=[],
+        case_functions=[dict(module='vf.contracts.pargrad', key='pygyro/advection/advection.py::ParallelGradient')],
+        assumptions=['interp_val(spline, x) names the value of the periodic theta-spline the Spline1D object holds after '
+                     'compute_interpolant (assumed contract of the interpolator: it interpolates the row it was given; C08) ',
+                     'numpy.linalg.solve returns the solution of A c = b (assumed)',
+                     'integer modulo with a symbolic divisor: defining facts instantiated per occurrence (trusted arithmetic)',
+                     'sqrt is uninterpreted (A5)', 'convergence order is not decided (numerical, bounded tier)'],
+    ),
 }
